@@ -33,7 +33,8 @@ RULE = ("hosts: generated programs (11 features) and corpus programs; per host u
         "one line after it")
 TRUSTED = []
 ASSUMPTIONS = ["the fragment shares no user-defined name with the host, defines no class or method and reopens no builtin class"]
-PARTIAL = ["global evaluator state other than the modelled channels: exploration only"]
+PARTIAL = ["global evaluator state other than the modelled channels: exploration only",
+           "a modifier `if` inside parentheses is read as a block `if` (kept finding; the form is not generated)"]
 
 
 def fragments(r):
@@ -192,6 +193,15 @@ def part_append_program(ctx, part):
 
 
 PARTS = [part_generated_hosts, part_corpus_hosts, part_append_program]
+
+PAREN_IF = "def zq(a)\n  zfx = (a.to_s if a)\n  a\nend\ndbtp zq(1)\n"
+
+
+def replay_finding(ctx, k):
+    if k["id"] == "C11-parenthesised-modifier-if":
+        return "t.rb:::5:::Integer" not in run(PAREN_IF).out
+    return None
+
 
 def replay(path):
     print(json.dumps(json.load(open(path)), indent=1)[:6000])
